@@ -2,8 +2,8 @@
 M = 'feel/src/temporal/mod.rs'
 D = 'feel/src/temporal/date.rs'
 Z = 'feel/src/temporal/zone.rs'
-P = ['C15']
-A = ['C15', 'C05']
+P = ['C15', 'C09']   # C09: a = b / a < b on date-times and times are decided here (each operand by ITS OWN instant, so b = a / b > a agree)
+A = ['C15', 'C09', 'C05']
 
 def mfn(name, **kw):
     d = {'kind': 'fn', 'src': M, 'path': 'fn ' + name, 'key': 'timeline::' + name, 'props': P, 'auto_props': A, 'loops': 0,
